@@ -27,9 +27,8 @@
 (* the two listed deviations are tolerated and printed (<<"KNOWN-DEV", ..>>); *)
 (* both concern the GAS USED only - code, codespace, gas wanted, data and     *)
 (* events (digest ng) must still agree:                                       *)
-(*  "stale-route-gas"  a transaction that names the pool id of a reverted     *)
-(*                     pool creation (index listed in "stale" by the first    *)
-(*                     full replica): warm and cold nodes may differ          *)
+(*  ("stale-route-gas", a transaction naming the pool id of a reverted pool   *)
+(*   creation, was tolerated until the defect was repaired in /repo)          *)
 (*  "import-gas"       an importer against the full replicas (the raw store   *)
 (*                     layout is not preserved by export/import); importers   *)
 (*                     of one export must still agree among themselves        *)
@@ -64,7 +63,9 @@ StaleIdx(c) == {c.stale[j] : j \in 1..Len(c.stale)}
 
 \* transaction i of the reporting node against the reference
 TxSame(c, i) == Ev.txs[i] = c.txs[i]
-TxStaleDev(c, i) == Known /\ i \in StaleIdx(c) /\ Ev.ng[i] = c.ng[i]
+\* (until fix 3780a23fd5 in /repo a warm and a cold node could differ in the gas used of a transaction naming the
+\* pool id of a reverted pool creation; that deviation is repaired and no longer tolerated)
+TxStaleDev(c, i) == FALSE
 TxImportDev(c, i) == Known /\ Ev.role = "importer" /\ Ev.ng[i] = c.ng[i]
 TxsAgree(c) == /\ Len(Ev.txs) = Len(c.txs)
                /\ \A i \in 1..Len(Ev.txs) :
